@@ -744,6 +744,9 @@ fn worker<S: System>(sys: &S, cfg: &Config, sh: &Shared, wid: usize) -> WorkerOu
             let can_inject = cfg.inject && sys.may_inject(&base);
             let nops = ops.len();
             for (j, &op) in ops.iter().enumerate() {
+                if sh.stop.load(Ordering::Relaxed) {
+                    break 'outer;
+                }
                 let st = Step::plain(op);
                 // the last operation may consume the base object, all others get a fresh replay
                 let mut fresh_obj;
@@ -784,6 +787,9 @@ fn worker<S: System>(sys: &S, cfg: &Config, sh: &Shared, wid: usize) -> WorkerOu
                 hist.pop();
                 if can_inject {
                     for i in 0..ncb {
+                        if sh.stop.load(Ordering::Relaxed) {
+                            break 'outer;
+                        }
                         let ist = Step { op, inj: i };
                         cx.muted = true;
                         let r = rebuild(sys, &hist, &mut cx);
